@@ -757,6 +757,30 @@ class Interp:
         if not broke:
             self.exec_block(st.orelse, frame)
 
+    def carried_names(self, st, frame):
+        """names bound before the loop and (re)bound or mutated in its body (loop targets excluded)"""
+        names, mutated = _assigned_names(st.body + ([st] if isinstance(st, ast.For) else []))
+        tn = set()
+        if isinstance(st, ast.For):
+            tn, _ = _assigned_names([ast.Assign(targets=[st.target], value=ast.Constant(value=None))])
+        out = []
+        for n in sorted((names | mutated) - tn):
+            try:
+                frame.lookup(n)
+            except NameError:
+                continue
+            out.append(n)
+        return out
+
+    def inv_env(self, frame, carried):
+        """what an invariant sees: all visible bindings, plus '@acc' = the single loop-carried variable (so that an invariant about
+        'the accumulator' does not depend on what the code calls it)"""
+        env = frame.env_view()
+        if len(carried) == 1:
+            env["@acc"] = env[carried[0]]
+        env["@carried"] = tuple(carried)
+        return env
+
     def havoc_vars(self, st, frame, spec):
         names, mutated = _assigned_names(st.body + ([st] if isinstance(st, ast.For) else []))
         if isinstance(st, ast.For):
@@ -796,13 +820,14 @@ class Interp:
         base = "%s.%s.loop%d" % (self.session.name, spec.label or frame.qualname.split(":")[-1], ordinal)
         n = seq.sym_len()
         spec.used = True
-        p.prove(base + ".init", spec.inv(frame.env_view(), 0, seq))
+        carried = self.carried_names(st, frame)
+        p.prove(base + ".init", spec.inv(self.inv_env(frame, carried), 0, seq))
         self.havoc_vars(st, frame, spec)
         i = Sym(z3.Int(fresh_name("i")))
         p.assume(z3.And(to_z3(i) >= 0, to_z3(i) <= to_z3(n)))
         from .spec import add_fold_point
         add_fold_point(p, i)
-        p.assume(to_z3(spec.inv(frame.env_view(), i, seq)))
+        p.assume(to_z3(spec.inv(self.inv_env(frame, carried), i, seq)))
         p.ghost[(frame.qualname, ordinal)] = i
         if p.branch(to_z3(i) < to_z3(n)):
             self.assign(st.target, seq.at(i), frame)
@@ -812,7 +837,7 @@ class Interp:
                 return
             except _Continue:
                 pass
-            p.prove(base + ".pres", spec.inv(frame.env_view(), i + 1, seq))
+            p.prove(base + ".pres", spec.inv(self.inv_env(frame, carried), i + 1, seq))
             raise PathAbort()
         else:
             p.assume(to_z3(i) == to_z3(n))
@@ -823,10 +848,11 @@ class Interp:
         ordinal = self.loop_ordinal(frame, st)
         base = "%s.%s.loop%d" % (self.session.name, spec.label or frame.qualname.split(":")[-1], ordinal)
         spec.used = True
-        p.prove(base + ".init", spec.inv(frame.env_view(), None, None))
+        carried = self.carried_names(st, frame)
+        p.prove(base + ".init", spec.inv(self.inv_env(frame, carried), None, None))
         self.havoc_vars(st, frame, spec)
-        p.assume(to_z3(spec.inv(frame.env_view(), None, None)))
-        variant0 = spec.variant(frame.env_view()) if spec.variant else None
+        p.assume(to_z3(spec.inv(self.inv_env(frame, carried), None, None)))
+        variant0 = spec.variant(self.inv_env(frame, carried)) if spec.variant else None
         if self.truth(self.eval(st.test, frame)):
             try:
                 self.exec_block(st.body, frame)
@@ -834,9 +860,9 @@ class Interp:
                 return
             except _Continue:
                 pass
-            p.prove(base + ".pres", spec.inv(frame.env_view(), None, None))
+            p.prove(base + ".pres", spec.inv(self.inv_env(frame, carried), None, None))
             if variant0 is not None:
-                v1 = spec.variant(frame.env_view())
+                v1 = spec.variant(self.inv_env(frame, carried))
                 p.prove(base + ".variant", z3.And(to_z3(v1) < to_z3(variant0), to_z3(variant0) >= 0))
             raise PathAbort()
         else:
